@@ -87,6 +87,11 @@ def user_fields(draw):
     """0..3 user-defined fields as a list of [key, value] (distinct keys); exactly one is the common case"""
     n = draw(st.sampled_from([0, 0, 0, 1, 1, 2, 3]))
     keys = draw(st.lists(key(), min_size=n, max_size=n, unique=True))
+    if n >= 2 and draw(st.sampled_from(range(3))) == 0:
+        # two keys that differ minimally: a trailing underscore, the case of the letters, one being a prefix of the other
+        near = draw(st.sampled_from([keys[0] + "_", keys[0].swapcase(), keys[0] + "0", keys[0][:-1] or "Z"]))
+        if near not in keys:
+            keys[1] = near
     return [[k, draw(text(16))] for k in keys]
 
 
@@ -113,13 +118,18 @@ def date_spec(draw, scale=None, lo_year=1985, hi_year=2045, sub=True):
         lo_year, hi_year = max(lo_year, 1992), min(hi_year, 2017)
     lo = int((datetime(lo_year, 1, 1) - T0).total_seconds()) * 10**6
     hi = int((datetime(hi_year, 1, 1) - T0).total_seconds()) * 10**6
-    kinds = ["uniform"] * 5 + ["second", "midnight", "new-year", "day366"] + (["leap", "leap"] if REAL_EOP else ["uniform"])
+    kinds = ["uniform"] * 5 + ["second", "midnight", "new-year", "day366", "exact-midnight", "exact-new-year"] + (
+        ["leap", "leap"] if REAL_EOP else ["uniform"])
     kind = draw(st.sampled_from(kinds))
     if kind == "second":
         us = draw(wint(lo // 10**6, hi // 10**6)) * 10**6
     elif kind == "midnight":  # within a second of a day boundary
         us = draw(wint(lo // (86400 * 10**6), hi // (86400 * 10**6))) * 86400 * 10**6 + draw(
             wint(-10**6, 10**6))
+    elif kind == "exact-midnight":  # 00:00:00.000000 on the dot
+        us = draw(wint(lo // (86400 * 10**6), hi // (86400 * 10**6))) * 86400 * 10**6
+    elif kind == "exact-new-year":
+        us = int((datetime(draw(st.integers(lo_year + 1, hi_year - 1)), 1, 1) - T0).total_seconds()) * 10**6
     elif kind == "new-year":  # within a few seconds of Jan 1st 0h
         year = draw(st.integers(lo_year + 1, hi_year - 1))
         us = int((datetime(year, 1, 1) - T0).total_seconds()) * 10**6 + draw(wint(-5 * 10**6, 5 * 10**6))
@@ -132,7 +142,7 @@ def date_spec(draw, scale=None, lo_year=1985, hi_year=2045, sub=True):
     else:
         us = draw(wint(lo, hi))
     frac = 0.0
-    if sub and draw(st.sampled_from(range(8))) == 0:
+    if sub and not kind.startswith("exact") and draw(st.sampled_from(range(8))) == 0:
         frac = draw(go.uniform(0.0, 0.999))
     return dict(us=us, frac=frac, scale=scale or draw(st.sampled_from(SCALES)), kind=kind)
 
@@ -323,6 +333,12 @@ def opm_spec(draw, jpl=False):
     )
     for m, lab in zip(spec["mans"], label_mix(draw, epoch, len(spec["mans"]))):
         m["label"] = lab
+    # ties: a burn dated exactly at the epoch of the state, two burns with exactly the same date
+    if spec["mans"] and draw(st.sampled_from(range(4))) == 0:
+        spec["mans"][0]["dt_us"] = 0
+    if len(spec["mans"]) >= 2 and draw(st.sampled_from(range(4))) == 0:
+        spec["mans"][1]["dt_us"] = spec["mans"][0]["dt_us"]
+        spec["mans"][1]["label"] = spec["mans"][0].get("label")
     if spec["klass"] == "Orbit":
         spec["propagator"] = draw(st.sampled_from([None, "Kepler", "Sgp4"]))
     return spec
@@ -363,6 +379,8 @@ def ephem_spec(draw, jpl=False):
     # us, >= 1 ms apart; one ephemeris in five spans days
     span = 3 * 86400 * 1000 if draw(st.sampled_from(range(5))) == 0 else 600 * 1000
     steps = [0] + [draw(wint(1, span)) * 1000 for _ in range(npts - 1)]
+    if npts > 1 and draw(st.sampled_from(range(6))) == 0:
+        steps[1] = 1  # two points one microsecond apart (the resolution of the written dates)
     nus = [draw(go.uniform(0, 2 * math.pi - 1e-9)) for _ in range(npts)]
     # 0..N covariances: none / exactly one / some / all
     mode = draw(st.sampled_from(["none", "none", "one", "some", "all"]))
@@ -391,13 +409,18 @@ def ephem_spec(draw, jpl=False):
 
 @st.composite
 def oem_spec(draw, jpl=False):
-    n = draw(st.sampled_from([1, 1, 1, 2]))
+    n = draw(st.sampled_from([1, 1, 1, 1, 2, 2, 3, 4]))
     return dict(type="oem", ephems=[draw(ephem_spec(jpl=jpl)) for _ in range(n)],
                 as_list=True if n > 1 else draw(st.booleans()),
-                container=draw(st.sampled_from(["list", "list", "tuple"])))
+                container=draw(st.sampled_from(["list", "list", "tuple"])),
+                # the same Ephem object a second time at the end of the list
+                same_twice=draw(st.sampled_from(range(6))) == 0,
+                # what the caller did with the ephemerides before writing them: built the lazy interpolator, changed the
+                # interpolation settings after that, iterated over them
+                pre=draw(st.sampled_from([None, None, None, "interp", "interp-then-settings", "iterate"])))
 
 
-def build_ephem(spec):
+def build_ephem(spec, pre=None):
     from beyond.orbits import Ephem, StateVector
 
     pts = []
@@ -411,7 +434,18 @@ def build_ephem(spec):
             attach_cov(sv, spec["covs"][str(k)])
         pts.append(sv)
     pts = [pts[k] for k in spec.get("order_in", range(len(pts)))]
-    eph = Ephem(pts, method=spec["method"], order=spec["order"])
+    if pre == "interp-then-settings":
+        # built with other settings, interpolator constructed (it takes the settings over), settings then changed
+        eph = Ephem(pts, method="lagrange" if spec["method"] == "linear" else "linear", order=spec["order"] % 10 + 1)
+        eph.interp
+        eph.method, eph.order = spec["method"], spec["order"]
+    else:
+        eph = Ephem(pts, method=spec["method"], order=spec["order"])
+        if pre == "interp":
+            eph.interp
+        elif pre == "iterate":
+            list(eph)
+            next(iter(eph))
     if spec["name"] is not None:
         eph.name = spec["name"]
     if spec["cospar_id"] is not None:
@@ -422,7 +456,9 @@ def build_ephem(spec):
 
 
 def build_oem(spec):
-    ephs = [build_ephem(e) for e in spec["ephems"]]
+    ephs = [build_ephem(e, spec.get("pre")) for e in spec["ephems"]]
+    if spec.get("same_twice"):
+        ephs.append(ephs[-1])
     if len(ephs) == 1 and not spec["as_list"]:
         return ephs[0]
     return tuple(ephs) if spec.get("container") == "tuple" else ephs
@@ -466,6 +502,10 @@ def tle_text(t):
     return "\n".join(lines)
 
 
+def _edge(strategy, edges):
+    return st.sampled_from(range(6)).flatmap(lambda k: st.sampled_from(edges) if k == 0 else strategy)
+
+
 @st.composite
 def tle_fields(draw):
     deep = draw(st.sampled_from(range(5))) == 0
@@ -483,9 +523,10 @@ def tle_fields(draw):
         bstar_m=draw(wint(-99999, 99999)), bstar_x=draw(st.integers(-7, 0)),
         etype=draw(st.sampled_from([0] * 9 + [2])),
         elnb=draw(wint(0, 9999)),
-        i_e4=draw(wint(0, 180_0000)), raan_e4=draw(wint(0, 359_9999)),
-        e_e7=draw(wint(0, 7000000 if deep else 300000)),
-        argp_e4=draw(wint(0, 359_9999)), M_e4=draw(wint(0, 359_9999)),
+        # one field in six sits on an end of its range (equatorial, circular, an angle of 0 or 359.9999 deg)
+        i_e4=draw(_edge(wint(0, 180_0000), [0, 180_0000])), raan_e4=draw(_edge(wint(0, 359_9999), [0, 359_9999])),
+        e_e7=draw(_edge(wint(0, 7000000 if deep else 300000), [0])),
+        argp_e4=draw(_edge(wint(0, 359_9999), [0, 359_9999])), M_e4=draw(_edge(wint(0, 359_9999), [0, 359_9999])),
         n_e8=n_e8, revs=draw(wint(0, 99999)),
     )
 
@@ -499,6 +540,7 @@ def omm_spec(draw):
     spec = dict(type="omm", source=src, tle=draw(tle_fields()), user=draw(user_fields()),
                 cov=draw(opt(cov_spec("TEME", FRAMES), 2)))
     if src == "direct":
+        spec["off_grid"] = draw(st.sampled_from([0.0, 0.0, 0.00004, 0.00006]))  # deg added to the four angles
         spec["epoch"] = draw(date_spec())
         spec["cospar_id"] = draw(opt(cospar))
     return spec
@@ -515,8 +557,9 @@ def build_omm(spec):
     else:
         from beyond.orbits import Orbit
 
-        el = [np.radians(t["i_e4"] / 1e4), np.radians(t["raan_e4"] / 1e4), t["e_e7"] / 1e7,
-              np.radians(t["argp_e4"] / 1e4), np.radians(t["M_e4"] / 1e4),
+        og = spec.get("off_grid", 0.0)
+        el = [np.radians(t["i_e4"] / 1e4), np.radians(t["raan_e4"] / 1e4 + og), t["e_e7"] / 1e7,
+              np.radians(t["argp_e4"] / 1e4 + og), np.radians(t["M_e4"] / 1e4 + og),
               t["n_e8"] / 1e8 * 2 * np.pi / 86400.0]
         kw = dict(
             bstar=t["bstar_m"] * 1e-5 * 10.0 ** t["bstar_x"],
@@ -579,6 +622,11 @@ def tdm_spec(draw):
                 m["value"] = draw(go.uniform(-math.pi / 2, math.pi / 2))
             else:
                 m["value"] = draw(go.uniform(-8000.0, 8000.0))
+            if draw(st.sampled_from(range(6))) == 0:
+                # ties: the ends of the ranges of the written fields
+                m["value"] = draw(st.sampled_from({"Range": [0.0], "Azimut": [0.0, 2 * math.pi, -2 * math.pi, math.pi, -0.0],
+                                                   "Elevation": [0.0, math.pi / 2, -math.pi / 2],
+                                                   "Doppler": [0.0]}[kind]))
             ms.append(m)
     if not ms:
         ms.append(dict(kind=kinds[0], path=0, dt_us=0, value=0.5))
